@@ -204,7 +204,9 @@ CONFIG["C07"] = dict(
                "Agreement between two DIFFERENT honest receivers (honest_receivers_agree, Proofs/DkgAgree): in one Feldman-VSS-Qual execution two honest participants that are not the dealer leave End with the same public result (both fail, or the same group key and the same vector of public key shares) "
                "for every behaviour of the dealer and of the others, every private message and every delivery order, assuming only reliable broadcast with round synchrony (hypothesis Net, once per round, over what each of the two really broadcasts - the handlers' outputs, broadcasts_are_the_complaint); "
                "proved by simulating each receiver with a passive shadow observer running the same state machine (shadow_simulation) and applying the order-independence theorem to the observer; non-vacuity example with a complaint and an answer. "
-               "Partial: lifting the two-receiver theorem to the n parallel instances of Joint-Feldman (exercised by randomized and exhaustive short schedules against the model and by the agreement predicates).",
+               "Joint-Feldman, instance by instance (joint_instances_agree, Proofs/DkgJointAgree): every broadcast reaches all n instances; for the instance of dealer d a broadcast of another participant A is ignored unless it is A's complaint against d "
+               "(joint_irrelevant_broadcasts_ignored), so with the network hypothesis on the FULL broadcast streams (NetD) two honest participants end every instance whose dealer is neither of them - honest or Byzantine - with the same public result. "
+               "Partial: the two instances whose dealer is one of the two participants themselves (dealer's own view against a receiver's view; the receiver's side is honest_dealer_never_disqualified of C08) and the final summation of Joint End over the agreed qualified set are exercised by the runs and the agreement predicates.",
     level_note="Lean kernel + correspondence; reliable broadcast and round synchrony are assumptions of the property, implemented by the scheduler",
     assumptions=["reliable broadcast, round-synchronous delivery, at most t Byzantine participants"],
 )
@@ -220,7 +222,8 @@ CONFIG["C08"] = dict(
                "honest_never_blamed_by_honest (Proofs/DkgBlame, network level, Feldman-VSS-Qual): no Disqualify / FlagMisbehavior callback of an honest participant during the three rounds, the two timeouts and End targets another honest participant, "
                "for every behaviour of the dealer and the others, every private message and every delivery order at both, assuming only that what one receives from the other by broadcast in a round is what the other's state machine broadcast in that round; "
                "rests on honest_broadcasts_one_complaint (an honest participant broadcasts at most one message in a whole execution, its complaint, never after the first timeout has passed) and blame_targets; non-vacuity example with a complaint at the first timeout. "
-               "Partial: the lifting of the network-level theorem to the n parallel instances of Joint-Feldman is exercised by the runs.",
+               "joint_round_never_blames_honest (Proofs/DkgJointAgree): inside Joint-Feldman the instance of dealer d also sees the other broadcasts of an honest participant (its vector, its answers, its complaints against other dealers); they change nothing and draw no blame, so a round of the instance never blames it. "
+               "Partial: the instances whose dealer is itself one of the two honest participants (an honest dealer is never flagged by an honest receiver) are exercised by the runs.",
     level_note="Lean kernel + correspondence",
     assumptions=["reliable broadcast, round-synchronous delivery, at most t Byzantine participants"],
 )
